@@ -60,7 +60,7 @@ ASSUMPTIONS = [
   "response fields other than type, opaque and (for reads/AMOs) data are not judged, except by the "
   "metamorphic comparison, which compares whole responses",
 ]
-QUICK_S = 42
+QUICK_S = 40
 THOROUGH_S = 780
 
 NBYTES = 4096                 # memory size handed to the memories
@@ -80,6 +80,11 @@ ReqT, RespT = mk_mem_msg(8, 32, 32)
 
 class HarnessBug(Exception):
   pass
+
+
+class _StopSearch(KeyboardInterrupt):
+  """raised from the test body when the wall budget is gone: leaves Hypothesis at once (also in the
+  middle of shrinking; the smallest violation seen so far is already recorded by ctx.judge)"""
 
 
 # ---------------------------------------------------------------------------------------
@@ -757,35 +762,42 @@ def one(ctx, case, shrinking=False):
 
 def run_shard(ctx):
   switch = any(e.get("kind") == "known" and e.get("signature") == KNOWN_BP_SIG for e in ctx.known)
-  total = ctx.n(4800, 110000)
+  total = ctx.n(4800, 150000)
   t_start = time.time()
   budget = max(1.0, ctx.deadline - t_start)
 
-  def phase(name, n, salt, excl, stop_at):
+  def phase(name, n, salt, excl, stop_gen, stop_shrink):
     nviol0 = len(ctx.violations)
 
     @seed(ctx.hseed(salt))
     @ctx.settings(n)
     @given(cases())
     def t(case):
-      if ctx.out_of_time() or time.time() > stop_at:
-        return
+      shrinking = len(ctx.violations) > nviol0
+      now = time.time()
+      if ctx.out_of_time() or now > (stop_shrink if shrinking else stop_gen):
+        raise _StopSearch()
       case = copy.deepcopy(case)
       if excl:
         k = apply_exclusion(case)
-        if k:
+        if k and not shrinking:
           ctx.exclude(EXCLUDE_NAME, k)
-      one(ctx, case, shrinking=len(ctx.violations) > nviol0)
-      if ctx.evaluations % 37 == 1:
+      one(ctx, case, shrinking)
+      if not shrinking and ctx.evaluations % 37 == 1:
         ctx.sample({"kind": case["kind"], "cfg": case["cfg"], "streams": case["streams"]})
-    ctx.run(t, name)
 
-  # phase A: unrestricted generator (first 45% of the budget at most)
-  phase("c18_a", max(1, total // 2), 0, False, t_start + 0.45 * budget)
+    try:
+      ctx.run(t, name)
+    except _StopSearch:
+      pass
+
+  # phase A: unrestricted generator; generation ends after 45% of the budget, shrinking of a
+  # failure after 70%, so that phase B always gets its share
+  phase("c18_a", max(1, total // 2), 0, False, t_start + 0.45 * budget, t_start + 0.70 * budget)
   found = any(v["signature"] == KNOWN_BP_SIG for v in ctx.violations)
   # phase B: same generator; the exclusion switch is on iff the back-pressure finding is
   # registered as known or has just been found, so that the search continues behind it
-  phase("c18_b", max(1, total - total // 2), 1, switch or found, ctx.deadline)
+  phase("c18_b", max(1, total - total // 2), 1, switch or found, ctx.deadline, ctx.deadline)
   ctx.extra["switch_on"] = bool(switch or found)
 
 
